@@ -3,6 +3,8 @@
 package cl
 
 import (
+	"math"
+
 	"github.com/ohler55/slip"
 )
 
@@ -135,7 +137,7 @@ func parseSubstituteIfArgs(f slip.Object, s *slip.Scope, args slip.List, depth i
 		s:     s,
 		rep:   args[0],
 		pc:    ResolveToCaller(s, args[1], depth),
-		count: -1,
+		count: math.MaxInt,
 		end:   -1,
 	}
 	kargs := args[3:]
@@ -171,9 +173,10 @@ func parseSubstituteIfArgs(f slip.Object, s *slip.Scope, args slip.List, depth i
 	if v, ok := slip.GetArgsKeyValue(kargs, slip.Symbol(":count")); ok {
 		switch tv := v.(type) {
 		case slip.Fixnum:
-			sr.count = int(tv)
+			// a negative count behaves like zero
+			sr.count = max(int(tv), 0)
 		case nil:
-			// leave as -1 for now
+			// leave as unlimited
 		default:
 			slip.TypePanic(s, depth, ":count", v, "fixnum")
 		}
@@ -185,8 +188,8 @@ func (sr *subIfRep) replace(seq slip.List) slip.Object {
 	if sr.end < 0 || len(seq) < sr.end {
 		sr.end = len(seq)
 	}
-	if sr.count < 0 {
-		sr.count = len(seq)
+	if sr.count <= 0 {
+		return seq
 	}
 	if sr.rev {
 		for i := sr.end - 1; sr.start <= i; i-- {
@@ -211,8 +214,8 @@ func (sr *subIfRep) maybe(seq slip.List, i int) bool {
 	}
 	if sr.pc.Call(sr.s, slip.List{v}, sr.depth) != nil {
 		seq[i] = sr.rep
+		sr.count--
 	}
-	sr.count--
 	return sr.count <= 0
 }
 
@@ -220,8 +223,8 @@ func (sr *subIfRep) replaceBytes(seq []byte) slip.Object {
 	if sr.end < 0 || len(seq) < sr.end {
 		sr.end = len(seq)
 	}
-	if sr.count < 0 {
-		sr.count = len(seq)
+	if sr.count <= 0 {
+		return slip.Octets(seq)
 	}
 	if sr.rev {
 		for i := sr.end - 1; sr.start <= i; i-- {
@@ -246,7 +249,7 @@ func (sr *subIfRep) maybeByte(seq []byte, i int) bool {
 	}
 	if sr.pc.Call(sr.s, slip.List{v}, sr.depth) != nil {
 		seq[i] = byte(sr.rep.(slip.Octet))
+		sr.count--
 	}
-	sr.count--
 	return sr.count <= 0
 }
